@@ -121,12 +121,12 @@ LEVEL_TEXT = ("Coq theorems for all pairs of NFAs: the verdict function of the t
               "equivalence of smaller+bigger with bigger) is true exactly when L(smaller) is included in L(bigger), and the selections agree; "
               "an algorithmic model of the antichain algorithm as coded (worklist ordered by macro-state size, antichain refinement, the two "
               "memo tables of macro-state comparisons) is proved to return the same verdict for every input, with the memo tables proved sound "
-              "for the current filling and refuted (vm_compute witness) for the historical one; the gate (reported verdict = verified decider) "
+              "for the current filling and refuted (vm_compute witness) for the historical one; an algorithmic model of the congruence algorithm (bisimulation up to congruence on the union automaton: pairs of macro-states, the closure test by rewriting to a normal form, successors scheduled depth-first or breadth-first) is proved partially correct for every fuel and order (an answer is the truth; key lemma: a relation progressing into its own congruence closure lies inside language equivalence); the gate (reported verdict = verified decider) "
               "is proved to decide 'the verdict is the truth'. Tie to the C++: libvata rebuilt from /repo's working tree answers the three "
               "selections on generated pairs, raw and pre-sanitized, and every verdict is judged by the extracted decider.")
-LEVEL_NOTE = ("Trusted: Coq kernel, ExtrOcamlBasic extraction, OCaml/C++ glue, generators. The congruence closure (rewriting with used-rule caches) is "
-              "modelled only functionally and tied behaviourally; the antichain algorithm is modelled with its worklist and memo tables but "
+LEVEL_NOTE = ("Trusted: Coq kernel, ExtrOcamlBasic extraction, OCaml/C++ glue, generators. The congruence algorithm is modelled with its relation, todo list and rewriting closure test, without the used-rule cache keyed by "
+              "macro-state addresses and without termination (fuel); the antichain algorithm is modelled with its worklist and memo tables but "
               "hash iteration orders and pointer-keyed caches are abstracted (proof is order-agnostic). No axioms.")
-TECHNIQUE = "Coq proof of verdict model + algorithmic antichain model + verified decider; extracted-model correspondence against libvata on generated NFA pairs"
+TECHNIQUE = "Coq proof of verdict model + algorithmic antichain and congruence (HKC) models + verified decider; extracted-model correspondence against libvata on generated NFA pairs"
 DESIGN_REF = "DESIGN.md 5/C09"
 READY = True
